@@ -672,3 +672,5 @@ RULE += (' Coordinates are also given through one list object refilled in place;
 RULE += (' Added: five long strongly non-uniform meshes (41..61 edges) with values on, beside and '
          'between all edges; in the element cases a compute() generator is left suspended while '
          'the element goes on being filled, then closed or dropped.')
+
+RULE += (' Round 10: histories of one histogram (fills interleaved with scale(x), set_nevents, scale(), deep copies and pickle round trips filled on beside the original); meshes of 130..400 edges.')
